@@ -165,4 +165,34 @@ PROPS = {
         "assumptions": ["a leak is detected by token search; tokens are ASCII and survive escaping, quoting and JSON encoding (JSON is decoded before the search)"],
         "parts": [rapid("taint", "TestProp", 12000, 200000)],
     },
+    "C06": {
+        "pkg": "c06",
+        "level": "exploration",
+        "level_text": "Generated search with shrinking: every generated tree (local, decoded, or decoded at a process that knows none of its types) is rendered "
+                      "through redact with %v, %s, %+v (marker grammar: balanced, never nested, balanced within every line; also after Redact()) and with %q, %x, %X, %d "
+                      "(must be refused as ‹%!verb(...), never rendered); for trees over the regular alphabet the marker-stripped rendering must equal the plain "
+                      "fmt rendering through Formattable. Thorough adds coverage-guided native fuzzing of the same property.",
+        "level_note": "Congruence is demanded for the regular alphabet only (the quantifier of the property; observed: redact replaces invalid UTF-8, which is outside it).",
+        "technique": "property-based testing (rapid): grammar invariant over hostile strings + differential redact-vs-fmt congruence; thorough: Go native fuzzing",
+        "rule": "rapid-generated trees over hostile strings (2 of 3) or regular strings (1 of 3), boosted with foreign wrappers/leaves with and without Format methods, "
+                "x variant {local, decoded, opaque}. Non-trivial = a foreign (non-SafeFormatter) layer between two library layers, or a hostile atom at a string "
+                "boundary. Distinct = hash of the case JSON.",
+        "assumptions": ["marker runes are U+2039/U+203A as defined by cockroachdb/redact"],
+        "parts": [rapid("grammar", "TestProp", 24000, 400000)],
+    },
+    "C12": {
+        "pkg": "c12",
+        "level": "exploration",
+        "level_text": "Generated taint search with shrinking (the dual of C03): every string that enters through a channel the library declares PII-free (constant "
+                      "messages and format literals, Safe() arguments, telemetry keys, domains, issue links, tag keys) carries a unique token which must be found in the "
+                      "Sentry event/extras or GetAllSafeDetails, locally and after 1-2 hops; trees are constructed with a sub-tree behind a barrier or in secondary "
+                      "position; type names of all layers and the innermost frame of every stack must be present as well.",
+        "level_note": "Only the library's own declared-safe channels are claimed; strings inside a Mark reference are not (only its mark is kept).",
+        "technique": "property-based testing (rapid) with taint tokens: retention oracle over the Sentry report and safe details",
+        "rule": "rapid-constructed trees: a generated sub-tree (boosted safe-carrying kinds) placed behind a drawn barrier kind / as secondary error / visible, under 0-4 "
+                "drawn wrappers; regular or hostile alphabet; 0-2 hops. Non-trivial = a declared-safe token sits behind a barrier or in a secondary error and the "
+                "tree has at least 2 declared-safe tokens. Distinct = hash of the case JSON.",
+        "assumptions": ["retention is detected by token search in the JSON-decoded Sentry event, the extras and GetAllSafeDetails"],
+        "parts": [rapid("retention", "TestProp", 8000, 160000)],
+    },
 }
